@@ -91,6 +91,18 @@ def _cond_facts(fn, cond, truth, out):
             add(ba, 0)
 
 
+def _decl_init(fn, varid):
+    cache = getattr(fn, '_decl_inits', None)
+    if cache is None:
+        cache = fn._decl_inits = {}
+        for x in fn.walk():
+            if x['k'] == 'DeclStmt':
+                for d in x.get('decls', []):
+                    if 'var' in d and 'init' in d:
+                        cache[d['var']] = d['init']
+    return cache.get(varid)
+
+
 def analyse(fn, entry, post=None):
     """Returns {(block id, element index): State holding BEFORE that element} and {block id: State at block exit}."""
     if not isinstance(entry, State):
@@ -191,7 +203,18 @@ def analyse(fn, entry, post=None):
                 if post is not None:
                     post(fn, st, fn.nodes[e])
             elif isinstance(e, dict) and 'decl' in e:
-                st.d.forget(('v', e['decl']))
+                # one declarator of a multi-declarator statement (the CFG splits `T a = x, b = y;`)
+                v = ('v', e['decl'])
+                kill_facts(st, {'k': 'DeclStmt', 'id': -1, 'decls': [{'var': e['decl']}]})
+                st.d.forget(v)
+                lv = fn.locals.get(e['decl'])
+                init = _decl_init(fn, e['decl'])
+                if lv is not None and init is not None and lv['type'] in zone.INT_TYPES:
+                    lin = zone.linear(fn, fn.nodes[init])
+                    if lin is not None and lin[0] != v:
+                        st.d.assign_var_plus(v, lin[0], lin[1])
+                    elif lin is None:
+                        zone.assign_general(fn, st.d, v, fn.nodes[init])
         return st
 
     def compute_in(b):
